@@ -11,6 +11,14 @@ Local Open Scope bool_scope.
 
 Definition span_eqb (a b : span) : bool := pos_eqb (fst a) (fst b) && pos_eqb (snd a) (snd b).
 
+Definition lkind_eqb (a b : lkind) : bool :=
+  N.eqb (fst a) (fst b) &&
+  match snd a, snd b with
+  | None, None => true
+  | Some (f, sp), Some (g, sq) => N.eqb f g && span_eqb sp sq
+  | _, _ => false
+  end.
+
 Inductive c07fcase :=
 (* j5parse.ParseFile returned a file: every span of its SourceLocation tree *)
 | CFrontFile (input : list N) (tree_spans : list span)
@@ -27,10 +35,11 @@ Inductive c07fcase :=
 | CChildPos (t : loc) (paths : list (list string)) (observed : list span)
 (* functions of the walker packages executed by the crash stream (go build -cover counters) *)
 | CWalkCov (covered : list fkey)
-(* package loading: a bundle of well-formed files with the given import graph (missing packages, cycles),
+(* package loading: a bundle of well-formed files (their real texts) with the given import graph (missing packages,
+   cycles), every reference with the span the REAL location tree records for its import statement;
    CompilePackage of [name]: kind 0 = compiled, 1 = circular dependency, 2 = no files for package, 3 = other
-   error; has_pos: some error leaf carried a position *)
-| CPkgLoad (b : bundle) (name : pkgid) (kind : N) (has_pos : bool)
+   error; at_pos: the file and span of the position the error leaf carried (None: no position) *)
+| CPkgLoad (b : bundle) (name : pkgid) (kind : N) (at_pos : option (fileid * span))
 (* an entity declaration alone in a file (Entity.v term of the `ent` family + its text): the verdict and, when it
    compiles, the import sets of the three output files restricted to the converter's constant imports *)
 | CEntityFile (e : entity) (v : verdict) (main service topic : list string).
@@ -59,10 +68,22 @@ Definition c07f_check (c : c07fcase) : bool :=
       forallb ldecl_wf lf && list_eqb span_eqb (map snd (conv_errors t lf)) observed
   | CChildPos t paths observed => list_eqb span_eqb (map (fun p => child_span p t) paths) observed
   | CWalkCov covered => coverage_ok covered
-  | CPkgLoad b name kind has_pos =>
+  | CPkgLoad b name kind at_pos =>
       (* resolveDependencies ranges over a map: any outcome some iteration order produces is admissible; the two
-         loader errors carry no position *)
-      existsb (N.eqb kind) (package_kinds b name) && negb has_pos
+         loader errors are positioned at the import statement of the importing file (fix 3f76693).  The hypothesis
+         of the package theorem (imports_located) is evaluated on the real data: every import span joins two end
+         points of nodes of the parser model's tree of the file's text *)
+      existsb (lkind_eqb (kind, at_pos)) (package_kinds b name)
+      && forallb (fun f => match sf_imports f with
+                           | [] => true
+                           | imps => match parse_file (sf_input f) true with
+                                     | Ok p => match ptree p with
+                                               | Some body => forallb (fun i => span_from body (snd i)) imps
+                                               | None => false
+                                               end
+                                     | _ => false
+                                     end
+                           end) (all_files b)
   | CEntityFile e v main service topic =>
       match expand e with
       | Ok cs =>
